@@ -247,3 +247,35 @@ Proof.
          repeat (split; [reflexivity|]);
          split; [intros F; inversion F; subst; cbn; constructor; auto | intros F F2; exact F2]).
 Qed.
+
+Lemma resend_g1 l st :
+  connected st = true -> Forall (fun e => s_owner e = OUser) l ->
+  let st' := fst (resend l st) in
+  sqc st' = sqc st ++ map s_gid l /\
+  (Forall (fun e => q_owner e <> OLib) (sq st) -> Forall (fun e => q_owner e <> OLib) (sq st')) /\
+  next_gid st <= next_gid st'.
+Proof.
+  revert st; induction l as [|e l IH]; intros st C F; cbn zeta.
+  - cbn. rewrite app_nil_r. repeat split; auto. lia.
+  - cbn [resend]. cbn [connected set_smq]. rewrite C.
+    inversion F as [|? ? Fe Fl]; subst.
+    destruct (send_raw_spec (set_smq st l) (s_gid e) (s_owner e) (s_text e) true)
+      as (q1 & r1 & n1 & tl & E1 & Eq & Tl & Hn & _ & S1).
+    destruct (send_raw_ (set_smq st l) (s_gid e) (s_owner e) (s_text e) true) as [st1 o1] eqn:Es.
+    cbn [fst snd] in E1, S1.
+    assert (C1 : connected st1 = true) by (rewrite E1; cbn; exact C).
+    specialize (IH st1 C1 Fl). cbn zeta in IH.
+    destruct (resend l st1) as [st2 o2] eqn:Er. cbn [fst snd] in *.
+    destruct IH as (I1 & I2 & I3).
+    assert (Eo : eff_owner (set_smq st l) (s_owner e) = OUser) by (rewrite Fe; reflexivity).
+    rewrite Eo in Eq.
+    split; [|split].
+    + rewrite I1. rewrite E1. unfold sqc, sq_countable. cbn [sq set_next_gid set_r_sent set_sq]. rewrite Eq.
+      cbn [sq set_smq]. fold cq. rewrite filter_app. cbn [filter]. unfold cq at 2. cbn [q_owner countable].
+      fold cq. rewrite (filter_none cq tl Tl). rewrite map_app. cbn [map q_gid]. rewrite <- app_assoc. cbn [app]. reflexivity.
+    + intros Fq. apply I2. rewrite E1. cbn [sq set_next_gid set_r_sent set_sq]. rewrite Eq. cbn [sq set_smq].
+      apply Forall_app. split; [exact Fq|]. constructor; [cbn; discriminate|].
+      clear - Tl. induction tl as [|a tl IHt]; [constructor|]. cbn in Tl. apply andb_true_iff in Tl as [T1 T2].
+      constructor; [|apply IHt, T2]. destruct (q_owner a); cbn in T1; try discriminate.
+    + rewrite E1 in I3. cbn in I3. cbn in Hn. lia.
+Qed.
